@@ -46,7 +46,7 @@ let table_lines pr =
 let run (id : string) (hdr : string list) (lines : string list list) (out : string -> unit) =
   let pr x = out (id ^ " " ^ x) in
   if kv_of hdr "kind" "prog" = "table" then table_lines pr
-  else if kv_of hdr "kind" "prog" = "race" then ()
+  else if kv_of hdr "kind" "prog" = "race" then pr "X race"
   else begin
     let mode = match kv_of hdr "mode" "replica" with
       | "primary" -> RPrimary | "standalone" -> RStandalone | _ -> RReplica in
